@@ -246,6 +246,28 @@ def replay_units(case) -> dict:
             src_img = blob_f.copy()
         if a1.shape != a2.shape or not np.array_equal(a1, a2):
             fails.append(dict(desc, clause="ConverterIsAFunction", what=name))
+    # parameters given as ARRAYS, at a scale other than 1 (where nm and pixels differ): a converter is the same function on every
+    # call and leaves the caller's parameter alone; the shift in pixels is the shift in nm over the scale
+    par = np.array([1.0, -2.0, 0.5])
+    par_keep = par.copy()
+    shc = _pp.shift(par)
+    s1 = np.array(shc(blob_f.copy(), 0.5), copy=True)
+    s2 = np.asarray(shc(blob_f.copy(), 0.5))
+    s3 = np.asarray(_pp.shift((2.0, -4.0, 1.0))(blob_f.copy(), 1.0))
+    if not np.array_equal(par, par_keep):
+        fails.append(dict(desc, clause="ConverterLeavesItsParameter", what="shift"))
+    if not np.array_equal(s1, s2):
+        fails.append(dict(desc, clause="ConverterIsAFunction", what="shift(ndarray) at scale 0.5"))
+    if not np.allclose(s1, s3, atol=1e-5):
+        fails.append(dict(desc, clause="UnitCovariance", what="shift(ndarray)"))
+    # the list provider is the single-image provider applied to every image, with ALL its parameters
+    for osc, sc, tol in ((0.52, 0.5, 0.05), (1.009, 1.0, 0.0), (1.0, 0.5, 0.01), (0.52, 0.5, 0.01)):
+        big_f = np.random.default_rng(5).normal(size=(12, 16, 20)).astype(np.float32)   # large enough for a 1-4 % rescale to change the shape
+        many = engine.api(_pp.from_arrays([big_f, big_f * 2], original_scale=osc, tol=tol), sc)
+        one = [np.asarray(engine.api(_pp.from_array(im, original_scale=osc, tol=tol), sc)) for im in (big_f, big_f * 2)]
+        if len(many) != 2 or any(np.asarray(m).shape != o.shape or not np.allclose(np.asarray(m), o, atol=1e-5) for m, o in zip(many, one)):
+            fails.append(dict(desc, clause="ListProviderIsTheSingleProviderPerImage", original_scale=osc, scale=sc, tol=tol,
+                              observed=[list(np.asarray(m).shape) for m in many], expected=[list(o.shape) for o in one]))
     # from_file: the image is resampled by original_scale / scale, where original_scale is the caller's value if given and the
     # file header's otherwise (mrc: voxel size in Angstrom / 10)
     import os
